@@ -1,30 +1,127 @@
 mod dynciph;
 mod gen;
+mod monitors;
 mod refs;
 mod registry;
 mod report;
 mod rng;
 
+use monitors::{Ctx, Tier};
+use report::J;
+use std::sync::Mutex;
+
+pub static LAST_PANIC: Mutex<String> = Mutex::new(String::new());
+
+fn arg(args: &[String], name: &str) -> Option<String> {
+    args.iter().position(|a| a == name).and_then(|i| args.get(i + 1).cloned())
+}
+
 fn main() {
-    let es = registry::entries();
-    let ts = registry::types();
-    println!("{} entries, {} types", es.len(), ts.len());
-    let mut ok = 0;
-    for e in &es {
-        if e.key_lens.is_empty() { continue; }
-        let k = vec![7u8; e.key_lens[0]];
-        match (e.make)(&k) {
-            registry::Made::Ok(i) => {
-                let mut b = vec![1u8; i.bs()];
-                i.enc1(&mut b);
-                i.dec1(&mut b);
-                assert!(b.iter().all(|x| *x == 1), "{}", e.id());
-                ok += 1;
-                if e.route == "new" { println!("{} w={}/{}", e.id(), i.width(true), i.width(false)); }
-            }
-            registry::Made::Rejected => println!("REJECTED {}", e.id()),
-            registry::Made::Panic(m) => println!("PANIC {} {}", e.id(), m),
-        }
+    let args: Vec<String> = std::env::args().collect();
+    if args.len() < 2 {
+        eprintln!("usage: bcmon <monitor> [--seed N] [--tier quick|thorough] [--shard i/n] [--cfg id] [--detect off] [--scale f] [--filter s] [--prop Cxx] [--out file]");
+        std::process::exit(2);
     }
-    println!("ok {}", ok);
+    let monitor = args[1].clone();
+    let detect_off = arg(&args, "--detect").map(|v| v == "off").unwrap_or(false);
+    // must happen before any cipher is constructed and never change afterwards
+    cpufeatures::verif::set_force_absent(detect_off);
+    if let Some(d) = arg(&args, "--detect-delay") {
+        cpufeatures::verif::set_delay(d.parse().unwrap_or(0));
+    }
+    // panics are observations, not crashes: remember the message, stay quiet
+    std::panic::set_hook(Box::new(|info| {
+        let mut g = LAST_PANIC.lock().unwrap_or_else(|e| e.into_inner());
+        *g = format!("{}", info);
+    }));
+    let shard = arg(&args, "--shard").unwrap_or_else(|| "0/1".into());
+    let (si, sn) = shard.split_once('/').map(|(a, b)| (a.parse().unwrap_or(0), b.parse().unwrap_or(1))).unwrap_or((0, 1));
+    let ctx = Ctx {
+        seed: arg(&args, "--seed").and_then(|s| s.parse().ok()).unwrap_or(1),
+        shard: si,
+        nshards: sn.max(1),
+        tier: if arg(&args, "--tier").as_deref() == Some("thorough") { Tier::Thorough } else { Tier::Quick },
+        cfg: arg(&args, "--cfg").unwrap_or_else(|| "dev".into()),
+        detect_off,
+        scale: arg(&args, "--scale").and_then(|s| s.parse().ok()).unwrap_or(1.0),
+        filter: arg(&args, "--filter"),
+        prop: arg(&args, "--prop"),
+        no_shadow: args.iter().any(|a| a == "--no-shadow"),
+    };
+    let t0 = std::time::Instant::now();
+    let rep = match monitor.as_str() {
+        "roundtrip" => monitors::roundtrip::run(&ctx),
+        "kat" => monitors::kat::run(&ctx),
+        "batch" => monitors::batch::run(&ctx),
+        "keylen" => monitors::keylen::run(&ctx),
+        "weak" => monitors::weak::run(&ctx),
+        "names" => monitors::names::run(&ctx),
+        "wblock" => monitors::wblock::run(&ctx),
+        "dump-names" => {
+            for t in registry::types() {
+                let k = vec![0x42u8; if (t.accepts)(t.key_size) { t.key_size } else { (0..400).find(|l| (t.accepts)(*l)).unwrap_or(0) }];
+                let d = t.debug.and_then(|f| std::panic::catch_unwind(|| f(&k)).ok().flatten());
+                println!("{}\t{:?}\t{:?}", t.name, d, t.alg_name.map(|f| f()));
+            }
+            return;
+        }
+        "list" => {
+            for e in registry::entries() {
+                println!("{}\t{}\t{}\t{:?}", e.id(), e.family, e.prop, e.key_lens);
+            }
+            for t in registry::types() {
+                println!("TYPE {}\t{}\t{}", t.name, t.ident, t.key_size);
+            }
+            return;
+        }
+        other => {
+            eprintln!("unknown monitor {}", other);
+            std::process::exit(2);
+        }
+    };
+    let wall = t0.elapsed().as_secs_f64();
+    let status = if !rep.violations.is_empty() {
+        "violated"
+    } else if !rep.inconclusive.is_empty() {
+        "inconclusive"
+    } else {
+        "ok"
+    };
+    let j = rep.to_json(vec![
+        ("cfg", J::s(&ctx.cfg)),
+        ("detect", J::s(if ctx.detect_off { "off" } else { "real" })),
+        ("seed", J::I(ctx.seed as i64)),
+        ("shard", J::I(ctx.shard as i64)),
+        ("nshards", J::I(ctx.nshards as i64)),
+        ("tier", J::s(if ctx.tier == Tier::Quick { "quick" } else { "thorough" })),
+        ("scale", J::F(ctx.scale)),
+        ("wall_s", J::F(wall)),
+        ("status", J::s(status)),
+        ("miri", J::B(cfg!(miri))),
+        ("debug_assertions", J::B(cfg!(debug_assertions))),
+        ("detect_calls", J::I(cpufeatures::verif::calls() as i64)),
+        ("argv", J::A(args.iter().map(J::s).collect())),
+    ]);
+    let text = j.to_string();
+    match arg(&args, "--out") {
+        Some(p) => std::fs::write(&p, &text).expect("write report"),
+        None => println!("{}", text),
+    }
+    eprintln!(
+        "[bcmon {} cfg={} shard={}/{}] evaluations={} distinct_random={} violations={} status={} wall={:.1}s",
+        monitor,
+        ctx.cfg,
+        ctx.shard,
+        ctx.nshards,
+        rep.evaluations,
+        rep.random_hashes.len(),
+        rep.violations.len(),
+        status,
+        wall
+    );
+    std::process::exit(match status {
+        "ok" => 0,
+        "violated" => 1,
+        _ => 2,
+    });
 }
